@@ -603,6 +603,25 @@ pub fn drive_bulk(seed: u64, tier: &str, out: &mut Out) {
         }
         println!("stat bulk_tiles_beyond_one_megabyte=2");
     }
+    // one content under 5 003 consecutive IDs (a single directory entry with a long run), a different tile
+    // before and after it.  (TLC expands runs quadratically: 20 000 cost a minute, 130 000 a quarter of an hour per validation -- see DESIGN 0.8, T4_1.)
+    {
+        let run = 5_003u64;
+        let c = vec![0x5A; 33];
+        let mut tiles: Vec<(u64, Vec<u8>)> = vec![(2, vec![1, 2, 3, 4])];
+        tiles.extend((0..run).map(|i| (1000 + i, c.clone())));
+        tiles.push((1000 + run, vec![9, 9]));
+        let api = (seed % 2) as u8;
+        let mut set = Settings::random(&mut rng, 2);
+        set.ic = 2;
+        let mut ops = vec![Op::New { tt: set.tt, tc: set.tc, api }, Op::Set(set), Op::Bulk(tiles.clone()), Op::Save, Op::Reopen { api: 1 - api }, Op::Count];
+        for id in [2u64, 999, 1000, 1001, 1000 + 4_095, 1000 + 4_096, 1000 + run - 2, 1000 + run - 1, 1000 + run, 1000 + run + 1] {
+            ops.push(Op::Get { id });
+        }
+        ops.push(Op::Save);
+        ops.push(Op::Reset);
+        em.emit(&exec(&ops, false), out);
+    }
     let mut k = 0u64;
     for rep in 0..reps {
         for &n in &sizes {
